@@ -427,6 +427,161 @@ def build_sum(tier):
     return items
 
 
+# ------------------------------------------------------------------------------ every short formula
+
+TF_TOKENS = ['x', 'z', '0', '2', '+', '*', '-', 'sin(', 'cos(', ')', '^']
+TF_X = (0.7, 1.9)
+
+
+def _tf_graders():
+    common = dict(variables=['x'], sample_from={'x': DiscreteSet(TF_X)}, samples=2)
+    ans = {'expect': 'x', 'grade_decimal': 1}
+    half = ({'expect': '2*x', 'grade_decimal': 0.5}, {'expect': 'x', 'grade_decimal': 1})
+    return [
+        ('blacklist=[sin]', 'func', {'sin'}, FormulaGrader(answers=half, blacklist=['sin'], **common)),
+        ('whitelist=[cos]', 'func', {'sin'}, FormulaGrader(answers=half, whitelist=['cos'], **common)),
+        ('whitelist=[None]', 'func', {'sin', 'cos'}, FormulaGrader(answers=half, whitelist=[None], **common)),
+        ('instructor_vars=[z] (z a sampled variable)', 'name', {'z'},
+         FormulaGrader(answers=half, variables=['x', 'z'], sample_from={'x': DiscreteSet(TF_X), 'z': DiscreteSet((0, 3))},
+                       samples=2, instructor_vars=['z'])),
+        ('instructor_vars=[z] (z the constant 0)', 'name', {'z'},
+         FormulaGrader(answers=half, user_constants={'z': 0}, instructor_vars=['z'], **common)),
+        ('plain (z unknown)', 'name', {'z'}, FormulaGrader(answers=half, **common)),
+        ("forbidden_strings=['+0', '0*']", 'forbidden', ('+0', '0*'),
+         FormulaGrader(answers=half, forbidden_strings=['+0', '0*'], **common)),
+        ("required_functions=['cos']", 'required', {'cos'},
+         FormulaGrader(answers={'expect': 'x+cos(0)-1', 'grade_decimal': 1}, required_functions=['cos'], **common)),
+    ]
+
+
+class TokenFormulas(Family):
+    """every grammatical formula over a small token alphabet, not only hand-made cheats"""
+    name = 'token_formulas'
+    timeout = 60.0
+    rule = ('every concatenation of 1..N tokens (N = 5 quick, 6 thorough) from %r that the reference grammar accepts, submitted to '
+            '8 graders (blacklist, whitelist, whitelist=[None], instructor variable sampled / constant 0, unknown name, forbidden '
+            'strings, required function; answers x [credit 1] and 2*x [credit 0.5], x drawn from {0.7, 1.9}): a formula that '
+            'mentions z is never graded; a formula that uses a refused function, contains a forbidden string (spaces ignored) or '
+            'lacks the required function never earns credit; non-trivial = it would earn credit by value' % (TF_TOKENS,))
+
+    def setup(self, tier):
+        from ..refs import expr as RX
+        self.RX = RX
+        self.graders = _tf_graders()
+
+    def cases(self, tier):
+        from ..refs import expr as RX
+        n = 5 if tier == 'quick' else 6
+        for L in range(1, n + 1):
+            for combo in itertools.product(range(len(TF_TOKENS)), repeat=L):
+                # cheap necessary conditions before asking the reference grammar
+                first, last = TF_TOKENS[combo[0]], TF_TOKENS[combo[-1]]
+                if first in ('+', '*', '^', ')') or last in ('+', '*', '-', '^', 'sin(', 'cos('):
+                    continue
+                opens = sum(1 for c in combo if TF_TOKENS[c].endswith('('))
+                if opens != sum(1 for c in combo if TF_TOKENS[c] == ')'):
+                    continue
+                yield ''.join(TF_TOKENS[c] for c in combo)
+
+    def describe(self, case):
+        return case
+
+    def value_class(self, ast, used_vars):
+        """'x' / '2x' / 'other' / 'undefined' by value at both sample points (z taken as 0 and 3 to see cancellation)"""
+        import math
+        F = {'sin': (1, math.sin), 'cos': (1, math.cos)}
+        kinds = set()
+        for zval in (0.0, 3.0):
+            vals = []
+            for x in TF_X:
+                try:
+                    v = self.RX.evaluate(ast, {'x': x, 'z': zval}, F, {})
+                except self.RX.AnyOutcome:
+                    return 'open'
+                except Exception:
+                    return 'undefined'
+                if isinstance(v, complex):
+                    if abs(v.imag) > 1e-12:
+                        return 'other'
+                    v = v.real
+                if not isinstance(v, (int, float)) or v != v:
+                    return 'undefined'
+                vals.append(v)
+            if all(abs(v - x) <= 1e-9 * max(1, abs(x)) for v, x in zip(vals, TF_X)):
+                kinds.add('x')
+            elif all(abs(v - 2 * x) <= 1e-9 * max(1, abs(x)) for v, x in zip(vals, TF_X)):
+                kinds.add('2x')
+            elif all(abs(v - x) > 1e-3 and abs(v - 2 * x) > 1e-3 for v, x in zip(vals, TF_X)):
+                kinds.add('other')
+            else:
+                return 'open'
+        return kinds.pop() if len(kinds) == 1 else 'open'
+
+    def check(self, case):
+        s = case
+        try:
+            ast, rv, rf, rs = self.RX.parse(s)
+        except self.RX.RefParseError:
+            return Result('outside-the-grammar', False, None, 0)
+        if rs:
+            return Result('suffix', False, None, 0)
+        vclass = self.value_class(ast, rv)
+        nospace = s.replace(' ', '')
+        calls = 0
+        nontriv = False
+        outcome = vclass
+        for label, kind, what, g in self.graders:
+            calls += 1
+            out = run(g, s)
+            got_credit = None
+            if out[0] == 'ok':
+                got_credit = out[1]['grade_decimal']
+            where = 'FormulaGrader %s; input %r' % (label, s)
+            if kind == 'name' and (set(rv) & what):
+                nontriv = nontriv or vclass in ('x', '2x')
+                if out[0] == 'ok':
+                    return Result('graded-undefined-name', True,
+                                  viol('token_formulas:name-graded:%s' % ('would-earn-credit' if vclass in ('x', '2x') else 'no-credit'),
+                                       '%s: mentions a name the student may not use, expected UndefinedVariable, got %r' % (where, out[1]),
+                                       'UndefinedVariable', out[1]), calls)
+                if not isinstance(out[1], StudentFacingError):
+                    return Result('wrong-error', True,
+                                  viol('token_formulas:name-not-student-facing-error', '%s: raised %r' % (where, out[1]),
+                                       'UndefinedVariable', repr(out[1])), calls)
+                continue
+            restricted = ((kind == 'func' and (set(rf) & what)) or (kind == 'forbidden' and any(w in nospace for w in what))
+                          or (kind == 'required' and not (set(rf) & what)))
+            if restricted:
+                nontriv = nontriv or vclass in ('x', '2x')
+                if got_credit:
+                    return Result('restricted-credited', True,
+                                  viol('token_formulas:bypass-earned-credit:%s' % kind,
+                                       '%s: violates the restriction but earned %r' % (where, out[1]), 'refusal (InvalidInput)', out[1]),
+                                  calls)
+                if (vclass == 'x' or (vclass == '2x' and kind != 'required')) and out[0] == 'ok':
+                    # would earn credit by value: must be REFUSED, not silently graded wrong
+                    return Result('restricted-graded', True,
+                                  viol('token_formulas:graded-instead-of-refused:%s' % kind,
+                                       '%s: numerically earns credit, violates the restriction, expected InvalidInput, got %r'
+                                       % (where, out[1]), 'InvalidInput', out[1]), calls)
+            elif kind != 'name' and not (set(rv) - {'x'}) and vclass in ('x', '2x', 'other') and not (set(rf) - {'sin', 'cos'}):
+                # permitted formula: graded by value
+                want = {'x': 1.0, '2x': 0.5, 'other': 0.0}[vclass]
+                if kind == 'required':
+                    want = {'x': 1.0}.get(vclass, 0.0)
+                if out[0] != 'ok':
+                    if isinstance(out[1], MITxError) and vclass == 'other':
+                        continue        # evaluation problems of wrong formulas (overflow, ...) are the student's
+                    return Result('permitted-refused', True,
+                                  viol('token_formulas:permitted-formula-refused:%s' % kind, '%s: raised %r' % (where, out[1]),
+                                       want, repr(out[1])), calls)
+                if abs(got_credit - want) > 1e-9:
+                    return Result('permitted-wrong-credit', True,
+                                  viol('token_formulas:permitted-formula-wrong-credit:%s' % kind,
+                                       '%s: expected credit %r, got %r' % (where, want, out[1]), want, out[1]), calls)
+        return Result(outcome, nontriv, None, calls)
+
+
 def families(tier):
     return [
         Restriction('function_restrictions',
@@ -439,6 +594,7 @@ def families(tier):
                     'instructor variables (sampled, dependent, constant), unknown / case-variant / primed / suffix-like names, '
                     'numbered-variable misuse, each in 9-11 neutralising contexts and alone', build_names),
         Restriction('siblings', 'ordered ListGrader whose second answer references sibling_1: student use of sibling names', build_siblings),
+        TokenFormulas(),
         Restriction('sum_grader', 'SumGrader with all four fields entered by the student; restricted construct in summand, lower or upper',
                     build_sum),
     ]
